@@ -665,7 +665,9 @@ func (auth *Authenticator) rehashPassword(user User, password string) error {
 		}
 
 		hashCost, costErr := bcrypt.Cost(currentUserImpl.PasswordHash_)
-		if costErr == nil && hashCost != auth.BcryptCost {
+		// The callback is re-applied to a reloaded user after a CAS mismatch: only re-hash while the stored hash
+		// still verifies the password that was presented (a concurrent password change must not be reverted).
+		if costErr == nil && hashCost != auth.BcryptCost && compareHashAndPassword(cachedHashes, currentUserImpl.PasswordHash_, []byte(password)) {
 			// the cost of the existing hash is different than the configured bcrypt cost.
 			// We'll re-hash the password to adopt the new cost:
 			err = currentUserImpl.SetPassword(password)
